@@ -9,7 +9,7 @@ func extractEndpoint(out string) {
 	l := &leanFile{ns: "Endpoint"}
 	fields := []string{"handlers", "stream", "closed"}
 	calls := []string{"closeWith", "closer", "close", "filter", "Send", "Close", "NewHandler", "Read", "dispatch", "append"}
-	for _, fn := range []string{"MakeHandler", "RemoveHandler", "dispatch", "closeWith", "process", "Send", "Close"} {
+	for _, fn := range []string{"MakeHandler", "AddHandler", "RemoveHandler", "dispatch", "closeWith", "process", "Send", "Close"} {
 		l.strList(lowerFirst(fn)+"Flow", flowTokens(mustFunc(f, file, "*endPoint", fn), "e", fields, calls))
 	}
 	l.strList("handlerCloseFlow", flowTokens(mustFunc(f, file, "*Handler", "closeWith"), "h", []string{"closer", "consumer"}, calls))
